@@ -147,7 +147,7 @@ def main():
         "setup_cmd": "./check setup",
         "hooks": {
             "guard": "verif",
-            "enable": "go build -tags verif -overlay /verif/build/overlay.json (accessor files /verif/hooks/*.go are overlaid onto packages lint and util; /repo is not edited for instrumentation)",
+            "enable": "go build -tags verif -overlay /verif/build/overlay.json (accessor files /verif/hooks/*.go are overlaid onto packages lint, util and lints/rfc; /repo is not edited for instrumentation)",
             "baseline_off_cmd": BASELINE_OFF,
             "source_commits": [],
             "add_only": True,
